@@ -28,38 +28,38 @@ import (
 var Engine = core.Engine{Name: "ttlsim", Run: Run}
 
 type cfg struct {
-	ld        bool // local_deletion (else wait_compact + value_header_v1)
-	engine    string
-	snapCount int
-	catchup   int
-	keepBack  int
-	steps     int
-	types     string // enabled key types
-	sameInst  bool   // some commands share one timestamp
+	ld                                                bool // local_deletion (else wait_compact + value_header_v1)
+	engine                                            string
+	snapCount                                         int
+	catchup                                           int
+	keepBack                                          int
+	steps                                             int
+	types                                             string // enabled key types
+	sameInst                                          bool   // some commands share one timestamp
 	wCmd, wAim, wNudge, wCompact, wKill, wStop, wTick int
-	expTypes  string // types that are given expiries
-	readPm    int // share of reads among commands
-	expPm     int // share of expiry-giving commands among writes
+	expTypes                                          string // types that are given expiries
+	readPm                                            int    // share of reads among commands
+	expPm                                             int    // share of expiry-giving commands among writes
 }
 
 type sim struct {
-	c     *core.RunCtx
-	t     *core.Tape
-	g     cfg
-	cl    *nodeh.Cluster
-	m     *Model
-	nval  int
-	ops   int
-	env   int
-	bootAt int64 // clock when the store of the current process was opened
-	focus  string
-	burst  int
-	frozen bool    // commands share one timestamp
-	follow *Expiry // bracket plan: revisit this expiry from the other side
+	c       *core.RunCtx
+	t       *core.Tape
+	g       cfg
+	cl      *nodeh.Cluster
+	m       *Model
+	nval    int
+	ops     int
+	env     int
+	bootAt  int64 // clock when the store of the current process was opened
+	focus   string
+	burst   int
+	frozen  bool    // commands share one timestamp
+	follow  *Expiry // bracket plan: revisit this expiry from the other side
 	inBurst bool
-	gen    map[string]int // key slot -> generation of its name
+	gen     map[string]int // key slot -> generation of its name
 	retired map[string]bool
-	head   []string
+	head    []string
 }
 
 func pick(t *core.Tape, vals ...int) int { return vals[t.Choose(len(vals))] }
@@ -330,6 +330,9 @@ func (s *sim) retire(id string) {
 	s.c.Log("retire", "%s", id)
 	if s.focus == id {
 		s.focus, s.burst = "", 0
+	}
+	if s.follow != nil && s.follow.ID == id {
+		s.follow = nil
 	}
 }
 
